@@ -127,6 +127,11 @@ func verifyManifest(inz *zip.Reader, manifest []byte) error {
 	}
 	zipfiles := make(map[string]*zip.File, len(inz.File))
 	for _, fh := range inz.File {
+		// of two entries with one name only one would be hashed here, and it
+		// need not be the one a consumer of the archive picks
+		if zipfiles[fh.Name] != nil {
+			return fmt.Errorf("duplicate zip entry %s", fh.Name)
+		}
 		zipfiles[fh.Name] = fh
 	}
 	for filename, keys := range parsed.Files {
